@@ -634,7 +634,7 @@ func Diff(a, b *Catalog) []string {
 				out = append(out, pre+fmt.Sprintf("column %q only in second", cn))
 			}
 		}
-		ia, ib := indexKeys(ta.Indexes), indexKeys(tb.Indexes)
+		ia, ib := indexKeys(n, ta.Indexes), indexKeys(n, tb.Indexes)
 		if strings.Join(ia, ";") != strings.Join(ib, ";") {
 			out = append(out, pre+fmt.Sprintf("indexes %v vs %v", ia, ib))
 		}
@@ -653,11 +653,20 @@ func Diff(a, b *Catalog) []string {
 // indexKeys renders the indexes that are observable schema: created indexes by name, automatic
 // unique-constraint indexes (origin u) by their parts. The primary key's own index (origin pk) is
 // covered by the PK comparison.
-func indexKeys(ix []CIndex) []string {
+func indexKeys(table string, ix []CIndex) []string {
 	var out []string
 	for _, i := range ix {
 		if i.Origin == "pk" {
 			continue
+		}
+		if i.Origin == "u" {
+			// Atlas documents (sqlite/migrate.go: normalizeIdxName) that the automatic index of an inline UNIQUE
+			// constraint and a created unique index named <table>_<columns> are the same object.
+			names := []string{table}
+			for _, p := range i.Parts {
+				names = append(names, strings.TrimSuffix(p, " DESC"))
+			}
+			i.Name = strings.Join(names, "_")
 		}
 		out = append(out, indexKey(i))
 	}
